@@ -1,4 +1,4 @@
-(* C07: the record of three repaired defects and of one open finding.
+(* C07: the record of four repaired defects.
 
    Each repaired defect is kept as an executable PRE-fix variant of the model
    function the fix changed, with a [_refuted] witness on the concrete session
@@ -10,7 +10,9 @@
                         under the caller's object's status, not the stored object's
      (c) /repo 70f999a  Session.Allocate / Pipeline returned the error of an unknown / refusing
                         node but left the task Allocated / Pipelined with NodeName set
-     (d) OPEN           C07-session-allocate-dispatch-refused-keeps-allocation (current model)
+     (d) /repo c8b10ae  Session.Allocate returned the error of a refused dispatch (AddBindTask) but
+                        kept the task Allocated on the node (former known finding
+                        C07-session-allocate-dispatch-refused-keeps-allocation)
 
    Everything is evaluated by vm_compute. *)
 From stdpp Require Import gmap.
@@ -488,21 +490,77 @@ Example ssn_place_prefix_node_refuses :
 Proof. vm_compute. repeat split; reflexivity. Qed.
 
 (* ====================================================================== *)
-(* (d) OPEN: C07-session-allocate-dispatch-refused-keeps-allocation        *)
-(*     current pkg/scheduler/framework/session.go, Session.Allocate:       *)
-(*     `if ssn.JobReady(job) { for ... { if err := ssn.dispatch(task); err *)
-(*      != nil { ...; return err } } }` returns the AddBindTask error with *)
-(*     the task still Allocated, on the node, and the handlers called.     *)
+(* (d) fix c8b10ae: Session.Allocate kept the allocation of a task whose    *)
+(*     dispatch was refused.  Pre-fix pkg/scheduler/framework/session.go,   *)
+(*     Session.Allocate: `if ssn.JobReady(job) { for ... { if err :=        *)
+(*     ssn.dispatch(task); err != nil { ...; return err } } }` returned the *)
+(*     AddBindTask error with the task still Allocated, on the node, and    *)
+(*     the handlers called.  The repaired loop calls ssn.undoAllocation.    *)
 (* ====================================================================== *)
+Section PrefixD.
+Variable eps : Z.
+
+Fixpoint dispatch_all_prefix (s : sess) (l : list positive) : sess * bool :=
+  match l with
+  | [] => (s, true)
+  | t :: r => let '(s1, ok) := dispatch s t in if ok then dispatch_all_prefix s1 r else (s1, false)
+  end.
+
+(* ssn_place_with of Sched/StmtModel.v with the pre-fix dispatch loop *)
+Definition ssn_place_with_dprefix (jr : sess -> job -> bool) (s : sess) (k : opkind) (tid nid : positive) : sess * result :=
+  match heap s !! tid with
+  | None => (s, RNoTask)
+  | Some p =>
+    let st := match k with KAllocate => Allocated | _ => Pipelined end in
+    let '(found, s1, p1) := ssn_update_status s p st in
+    if negb found then (s, RErr) else
+    let p2 := set_node p1 (Some nid) in
+    let s2 := put_task s1 p2 in
+    let revert :=
+      let '(_, sr, pr) := ssn_update_status s2 p2 Pending in
+      put_task sr (set_node pr None) in
+    match nodes s2 !! nid with
+    | None => (revert, RErr)
+    | Some n =>
+      match node_add eps n p2 with
+      | inr _ => (revert, RErr)
+      | inl (n', p3) =>
+        let s3 := put_task (upd_nodes s2 (<[nid := n']> (nodes s2))) p3 in
+        let '(_, s4) := h_alloc s3 p3 in
+        match k with
+        | KAllocate =>
+          match jobs s4 !! t_job p with
+          | Some j =>
+            if jr s4 j then
+              let '(s5, ok) := dispatch_all_prefix s4 (elements (default ∅ (j_index j !! skey Allocated))) in
+              (s5, if ok then ROk else RErr)
+            else (s4, ROk)
+          | None => (s4, ROk)
+          end
+        | _ => (s4, ROk)
+        end
+      end
+    end
+  end.
+
+Definition ssn_place_dprefix := ssn_place_with_dprefix (fun s _ => job_ready s).
+End PrefixD.
+
+(* the two loops agree as long as every dispatch succeeds *)
+Lemma dispatch_all_prefix_ok s l s' : dispatch_all_prefix s l = (s', true) -> dispatch_all s l = (s', true).
+Proof.
+  revert s. induction l as [|t r IH]; intros s; simpl; [auto|].
+  destruct (dispatch s t) as [s1 ok]. destruct ok; [apply IH|discriminate].
+Qed.
 
 (* ex_sess with cache.AddBindTask refusing task 1 and ssn.JobReady = true *)
 Definition d_sess : sess := upd_faults ex_sess ∅ {[1%positive]} ∅ true.
 
-Example ssn_allocate_dispatch_refused_witness :
+Example dispatch_all_prefix_witness :
   let s := d_sess in let tid := 1%positive in let nid := 1%positive in
   okb s = true /\ task_view s tid = Some (Pending, None) /\ on_no_node s tid = true /\
-  snd (ssn_place ex_eps s KAllocate tid nid) = RErr /\
-  let s' := fst (ssn_place ex_eps s KAllocate tid nid) in
+  snd (ssn_place_dprefix ex_eps s KAllocate tid nid) = RErr /\
+  let s' := fst (ssn_place_dprefix ex_eps s KAllocate tid nid) in
   okb s' = true /\
   task_view s' tid = Some (Allocated, Some nid) /\
   copy_status s' nid tid = Some Allocated /\
@@ -514,24 +572,34 @@ Example ssn_allocate_dispatch_refused_witness :
   share_sameb (hshare s) (hshare s') = false.
 Proof. vm_compute. repeat split; reflexivity. Qed.
 
-Theorem ssn_allocate_dispatch_refused_refuted :
+Theorem dispatch_all_prefix_refuted :
   exists s tid nid,
     ledger_okb (heap s) (jobs s) (nodes s) = true /\
     (t_status <$> heap s !! tid) = Some Pending /\
     (heap s !! tid ≫= t_node) = None /\
     on_no_node s tid = true /\
-    snd (ssn_place ex_eps s KAllocate tid nid) = RErr /\
-    let s' := fst (ssn_place ex_eps s KAllocate tid nid) in
+    snd (ssn_place_dprefix ex_eps s KAllocate tid nid) = RErr /\
+    let s' := fst (ssn_place_dprefix ex_eps s KAllocate tid nid) in
     (t_status <$> heap s' !! tid) = Some Allocated /\
     (heap s' !! tid ≫= t_node) = Some nid /\
     (t_id <$> (nodes s' !! nid ≫= fun n => n_tasks n !! tid)) = Some tid.
 Proof. exists d_sess, 1%positive, 1%positive. vm_compute. repeat split; reflexivity. Qed.
 
+(* companion: the repaired Session.Allocate returns the error and leaves no trace (the handler
+   log shows the allocate and the deallocate callback) *)
+Theorem ssn_allocate_dispatch_refused_no_trace :
+  let s := d_sess in let tid := 1%positive in let nid := 1%positive in
+  snd (ssn_place ex_eps s KAllocate tid nid) = RErr /\
+  let s' := fst (ssn_place ex_eps s KAllocate tid nid) in
+  okb s' = true /\ sess_sameb s s' = true /\ binds s' = [] /\ on_no_node s' tid = true /\
+  map (fun e => (he_alloc e, he_task e, he_status e)) (hlog s') = [(false, tid, Pending); (true, tid, Allocated)].
+Proof. vm_compute. repeat split; reflexivity. Qed.
+
 (* the same situation reached through the operation alphabet (OSetFaults, OSsnAllocate) *)
 Example ssn_allocate_dispatch_refused_hist :
   run_results ex_eps ex_sess [OSetFaults [] [1%positive] [] true; OSsnAllocate 1 1] = [ROk; RErr] /\
   task_view (run ex_eps ex_sess [OSetFaults [] [1%positive] [] true; OSsnAllocate 1 1]) 1
-    = Some (Allocated, Some 1%positive).
+    = Some (Pending, None).
 Proof. vm_compute. repeat split; reflexivity. Qed.
 
 Print Assumptions unevict_prefix_refuted.
@@ -540,4 +608,5 @@ Print Assumptions job_del_prefix_refuted.
 Print Assumptions job_del_prefix_session_refuted.
 Print Assumptions ssn_place_prefix_refuted.
 Print Assumptions ssn_place_current_no_trace.
-Print Assumptions ssn_allocate_dispatch_refused_refuted.
+Print Assumptions dispatch_all_prefix_refuted.
+Print Assumptions ssn_allocate_dispatch_refused_no_trace.
